@@ -51,6 +51,7 @@ type asmSummary struct {
 	retDeps     depset   // parameters the result depends on
 	otherStores []string // stores to memory other than the result slot
 	signedCmp   []string // signed ordered compares whose operands are not both biased
+	roles       []string // ordered compares with swapped operand roles
 	unknown     []string // unknown mnemonics (fail closed)
 	frame       []string // frame-offset mismatches
 	params      map[string]int
@@ -292,6 +293,10 @@ func analyseAsm(f *asmFunc, arch string, wantOffsets map[string]int) *asmSummary
 			set(last, union(ops...), in)
 			delete(imm, dstLoc)
 		case "PCMPGTB":
+			// dst = dst > src lane-wise: "key greater than probe" needs the keys in dst, the probe in src
+			if !get(last)["keys"] || get(last)["b"] || !get(ops[0])["b"] || get(ops[0])["keys"] {
+				s.roles = append(s.roles, fmt.Sprintf("%s:%d %s: ordered compare must be keys > probe (keys in the destination, broadcast probe byte in the source); here destination depends on %v and source on %v", f.file, in.line, in.raw, get(last).list(), get(ops[0]).list()))
+			}
 			a, _, _ := asmLoc(ops[0])
 			if !biased[a] || !biased[dstLoc] {
 				s.signedCmp = append(s.signedCmp, fmt.Sprintf("%s:%d %s: PCMPGTB is a signed compare and its operands are not both XOR-biased with a broadcast 0x80", f.file, in.line, in.raw))
@@ -635,6 +640,11 @@ func ruleR20(c *Ctx) {
 				c.r.bad("R20", key+" ordered compare is unsigned", pos, strings.Join(s.signedCmp, "; ")+" – bytes ≥ 0x80 order before bytes < 0x80", props...)
 			} else {
 				c.r.ok("R20", key+" ordered compare is unsigned", pos, "no signed ordered compare, or both operands biased by 0x80 (arm64: CMHI)", props...)
+			}
+			if len(s.roles) > 0 {
+				c.r.bad("R20", key+" compares keys > probe", pos, strings.Join(s.roles, "; "), props...)
+			} else {
+				c.r.ok("R20", key+" compares keys > probe", pos, "operand roles of every ordered compare: keys in the destination, probe in the source (or no ordered compare)", props...)
 			}
 			if len(s.frame) > 0 {
 				c.r.bad("R20", key+" frame offsets match the Go prototype", pos, strings.Join(s.frame, "; "), props...)
